@@ -9,7 +9,25 @@ only = sys.argv[2:]
 props = {json.loads(l)['id']: json.loads(l) for l in open('/verif/properties.jsonl')}
 os.makedirs('/tmp/seedprompts', exist_ok=True)
 extra = ""
-if suffix >= 'f':
+if suffix >= 'g':
+    extra = ("\nRestriction for this round: earlier rounds have changed graph_run.go, graph_manager.go, graph.go, tool_node.go, "
+             "utils.go, dag.go, workflow.go, field_mapping.go, generic_helper.go, state.go, runnable.go, error.go, checkpoint.go, "
+             "stream.go, message.go, select.go, serialization.go, concat.go and react.go many times. Your change must be in a file "
+             "that has NOT been used yet. Candidates: compose/chain_branch.go, compose/chain_parallel.go, compose/chain.go, "
+             "compose/branch.go, compose/types_lambda.go, compose/component_to_graph_node.go, compose/graph_add_node_options.go, "
+             "compose/graph_compile_options.go, compose/graph_call_options.go, compose/generic_graph.go, compose/graph_node.go, "
+             "compose/stream_reader.go, compose/stream_concat.go, compose/interrupt.go, compose/pregel.go, compose/values_merge.go, "
+             "compose/introspect.go, internal/channel.go, internal/safe/panic.go, internal/callbacks/manager.go, "
+             "internal/callbacks/inject.go, callbacks/aspect_inject.go, callbacks/handler_builder.go, utils/callbacks/template.go, "
+             "schema/tool.go, flow/agent/multiagent/host/compose.go, flow/agent/multiagent/host/types.go, "
+             "flow/agent/multiagent/host/callback.go, flow/agent/react/option.go, flow/agent/react/callback.go, "
+             "flow/agent/agent_option.go, flow/agent/utils.go, flow/retriever/... . Read the property, find out which of these "
+             "files take part in realising it (most properties are realised by more code than the obvious central loop: "
+             "constructors and wrappers that prepare nodes, option plumbing, the chain / parallel / branch builders that "
+             "translate into graph calls, stream adapters, callback injection), write down THREE candidates in three of "
+             "these files, and implement the one that needs the most specific circumstances. If, after an honest search, "
+             "none of these files can break the property, say so and use the least-used other file you can find.\n")
+elif suffix >= 'f':
     extra = ("\nFor diversity, do NOT use any of these ideas (they have been used in earlier rounds): shared buffers / maps / "
              "prototype objects; aliasing through spare slice capacity or shared pointers; errors.Is vs == for io.EOF; captured "
              "loop variables; swapped defers; break vs continue; a wrong index in the select tables; a mutated package-level "
